@@ -133,3 +133,24 @@ func vfC15RunLoad(c *vt.Ctx, s vfC15LoadScenario) {
 }
 
 func TestVerifC15LocalLoad(t *testing.T) { vt.Run(t, vfC15GenLoad, vfC15RunLoad) }
+
+// Deterministic witness, printed only while the finding is listed as open.
+func TestVerifC15KnownWitnessRecordNilPodInfo(t *testing.T) {
+	if !vt.Known("C15-record-nil-podinfo") {
+		t.Skip("not listed as an open finding")
+	}
+	panicked := false
+	func() {
+		defer func() {
+			if recover() != nil {
+				panicked = true
+			}
+		}()
+		e := &daemon.ENI{ID: g.RecENIID, MAC: g.RecENIMAC, PrimaryIP: types.IPSet{IPv4: net.ParseIP(g.RecIPv4[0])}}
+		l := NewLocal(e, "secondary", &vfC15Factory{}, &daemon.PoolConfig{BatchSize: 10, MaxIPPerENI: 10, EnableIPv4: true})
+		_ = l.load([]daemon.PodResources{{}})
+	}()
+	if panicked {
+		vt.KnownFindingLine("C15", "a resource-database record without PodInfo (e.g. `{}`) makes eni.Local.load dereference nil at start-up")
+	}
+}
